@@ -624,35 +624,130 @@ def generate():
     I("upstream_waits_ready", 1 if 0 <= ri < si else 0, "proxy_agent/src/proxy/proxy_connection.rs")
 
     # ---- key directory restriction (C12): chown uid/gid and chmod mode of acl_directory ----
-    # TOLERANT: 0 / 65535 sentinel when the call is gone, so that the proof breaks and the check goes on
-    # to find the failing syscall order instead of stopping here.
+    # The VALUE is located, not the statement shape: the argument of `Permissions::from_mode(..)`,
+    # `Uid::from_raw(..)`, `Gid::from_raw(..)` anywhere in the file, a literal (0o700 / 448 / 0x1c0, with or
+    # without a type suffix) or a name resolved through `const|static|let NAME[: T] = <expr>;` in the same file.
+    # A located value that differs breaks the C12 directory theorems (and the strace leg then finds the failing
+    # input); a value that cannot be located is PINNED to the baseline (0o700, 0, 0) -- the syscall trace of
+    # every run shows the real chown/chmod arguments anyway.
     f = "proxy_agent/src/acl/linux_acl.rs"
     acl = strip_comments(src(f))
-    mm = re.search(r"Permissions::from_mode\(\s*0o([0-7]+)\s*\)", acl)
-    I("c12_acl_mode", int(mm.group(1), 8) if mm else 0, f)
-    mm = re.search(r"chown\(\s*&?\w+\s*,\s*Some\(Uid::from_raw\((\d+)\)\)\s*,\s*Some\(Gid::from_raw\((\d+)\)\)\s*\)", acl)
-    I("c12_acl_uid", int(mm.group(1)) if mm else 65535, f)
-    I("c12_acl_gid", int(mm.group(2)) if mm else 65535, f)
+
+    def c12_resolve(expr, depth=0):
+        e = re.sub(r"\bas\s+\w+", "", expr).strip().strip("()").strip()
+        e = re.sub(r"(?<=[0-9a-fA-F])_(?=[0-9a-fA-F])", "", e)
+        e = re.sub(r"(?<=[0-9a-fA-F])_?(u8|u16|u32|u64|usize|i32|i64|mode_t|uid_t|gid_t)$", "", e)
+        m = re.fullmatch(r"0o([0-7]+)", e)
+        if m:
+            return int(m.group(1), 8)
+        m = re.fullmatch(r"0x([0-9a-fA-F]+)", e)
+        if m:
+            return int(m.group(1), 16)
+        if re.fullmatch(r"\d+", e):
+            return int(e)
+        m = re.fullmatch(r"(?:\w+::)*([A-Za-z_]\w*)", e)
+        if m and depth < 4:
+            d = re.search(r"\b(?:const|static|let)\s+(?:mut\s+)?%s\s*(?::\s*[\w:<>]+)?\s*=\s*([^;]+);" % re.escape(m.group(1)), acl)
+            if d:
+                return c12_resolve(d.group(1), depth + 1)
+        return None
+
+    def c12_located(coq, call, default):
+        vals = {c12_resolve(a) for a in re.findall(r"%s\(\s*([^()]*(?:\([^()]*\))?[^()]*)\)" % call, acl)}
+        if vals and None not in vals and len(vals) == 1:
+            I(coq, vals.pop(), f)
+        elif vals and None not in vals:
+            I(coq, max(vals, key=lambda v: abs(v - default)), f)      # several different values: the one off the baseline
+        else:
+            PINNED.append("%s:%s -> pinned baseline value %d (argument not located)" % (f, call, default))
+            I(coq, default, f + " -- PINNED DEFAULT: not located in the source, tied by C12's strace leg only")
+
+    c12_located("c12_acl_mode", r"Permissions::from_mode", 0o700)
+    c12_located("c12_acl_uid", r"Uid::from_raw", 0)
+    c12_located("c12_acl_gid", r"Gid::from_raw", 0)
 
     # ---- failed-authorization summary key (C11): separator and field order of ProxySummary::to_key_string ----
-    # TOLERANT: sentinel 256 / empty order when the format is not "fields joined by one single-byte separator",
-    # so that the C11 proofs break and the check goes on to look for a failing input.
+    # Recognised shapes: format!("{}<sep>{}...", args) and [args].join(<sep literal or const>), with arguments that are
+    # the summary's fields up to .as_str()/.as_ref()/.to_string()/&/clone and function-local `let` names.  A recognised
+    # shape whose separator / order DIFFERS is emitted as found (the C11 theorems about the key then break); an
+    # UNRECOGNISED shape falls back to the pinned value with a NOTE -- the check replays the colliding callers on the
+    # real code on every run, so the separator/field question is then decided by execution only.
     f = "proxy_agent/src/proxy/proxy_summary.rs"
     ks = strip_comments(src(f))
-    mm = re.search(r"pub fn to_key_string\b.*?format!\(\s*\"((?:[^\"\\]|\\.)*)\"\s*,(.*?)\)\s*\n\s*\}", ks, flags=re.S)
-    key_sep, key_order = 256, ""
-    if mm:
-        fmt = mm.group(1)
-        fmt = re.sub(r"\\u\{([0-9a-fA-F]+)\}", lambda x: chr(int(x.group(1), 16)), fmt)
-        fmt = fmt.replace("\\0", "\0").replace("\\t", "\t").replace("\\n", "\n").replace('\\"', '"').replace("\\\\", "\\")
-        pieces = fmt.split("{}")
-        args = [re.sub(r"\s+", "", a) for a in mm.group(2).split(",") if a.strip()]
-        names = {"self.userName": "u", "self.clientIp": "c", "self.ip": "i", "self.port": "p",
-                 "self.processFullPath.to_string_lossy()": "x", "self.processCmdLine": "l", "self.responseStatus": "s"}
-        if (len(pieces) == len(args) + 1 and len(args) >= 2 and pieces[0] == "" and pieces[-1] == ""
-                and len(set(pieces[1:-1])) == 1 and len(pieces[1]) == 1 and ord(pieces[1]) < 256
-                and all(a in names for a in args)):
-            key_sep, key_order = ord(pieces[1]), "".join(names[a] for a in args)
+    PIN_SEP, PIN_ORDER = 0, "ucipxls"
+
+    def _unesc(t):
+        t = re.sub(r"\\u\{([0-9a-fA-F]+)\}", lambda x: chr(int(x.group(1), 16)), t)
+        t = re.sub(r"\\x([0-9a-fA-F]{2})", lambda x: chr(int(x.group(1), 16)), t)
+        return t.replace("\\0", "\0").replace("\\t", "\t").replace("\\n", "\n").replace('\\"', '"').replace("\\\\", "\\")
+
+    def _key_shape():
+        fm = re.search(r"fn to_key_string\b[^{]*\{(.*?)\n    \}", ks, flags=re.S)
+        if not fm:
+            return None
+        body = fm.group(1)
+        locals_ = {m.group(1): m.group(2) for m in re.finditer(r"\blet\s+(?:mut\s+)?(\w+)(?:\s*:\s*[^=;]+)?\s*=\s*([^;]+);", body)}
+        names = {"self.userName": "u", "self.clientIp": "c", "self.ip": "i", "self.port": "p", "self.processFullPath": "x",
+                 "self.processCmdLine": "l", "self.responseStatus": "s"}
+
+        def norm(e, depth=0):
+            e = re.sub(r"\s+", "", e)
+            prev = None
+            while prev != e:
+                prev = e
+                e = re.sub(r"^&(mut)?", "", e)
+                e = re.sub(r"\.(as_str|as_ref|to_string|clone|to_owned|into_owned|to_string_lossy|display|borrow)\(\)$", "", e)
+                e = re.sub(r"^\((.*)\)$", r"\1", e)
+            if e in locals_ and depth < 3:
+                return norm(locals_[e], depth + 1)
+            return names.get(e)
+
+        def split_args(t):
+            out, cur, d = [], "", 0
+            for ch in t:
+                if ch in "([{":
+                    d += 1
+                elif ch in ")]}":
+                    d -= 1
+                if ch == "," and d == 0:
+                    out.append(cur)
+                    cur = ""
+                else:
+                    cur += ch
+            if cur.strip():
+                out.append(cur)
+            return [a for a in out if a.strip()]
+        m1 = re.search(r"format!\(\s*\"((?:[^\"\\]|\\.)*)\"\s*,(.*)\)\s*$", body.strip(), flags=re.S)
+        m2 = re.search(r"\[(.*)\]\s*\.join\(\s*(\"(?:[^\"\\]|\\.)*\"|[A-Za-z_][A-Za-z0-9_:]*)\s*\)\s*$", body.strip(), flags=re.S)
+        if m1:
+            pieces = _unesc(m1.group(1)).split("{}")
+            args = split_args(m1.group(2))
+            if not (len(pieces) == len(args) + 1 and len(args) >= 2 and pieces[0] == "" and pieces[-1] == "" and len(set(pieces[1:-1])) == 1):
+                return None
+            sep = pieces[1]
+        elif m2:
+            args = split_args(m2.group(1))
+            lit = m2.group(2)
+            if not lit.startswith('"'):
+                cm = re.search(r"\bconst\s+%s\s*:\s*&(?:'static\s+)?str\s*=\s*(\"(?:[^\"\\]|\\.)*\")\s*;" % re.escape(lit.split("::")[-1]), ks)
+                if not cm:
+                    return None
+                lit = cm.group(1)
+            sep = _unesc(lit[1:-1])
+        else:
+            return None
+        codes = [norm(a) for a in args]
+        if len(sep) != 1 or ord(sep) > 255 or any(c is None for c in codes):
+            return None
+        return ord(sep), "".join(codes)
+
+    shape = _key_shape()
+    if shape is None:
+        NOTES.append("ProxySummary::to_key_string in %s is not in a recognised shape: pinned separator NUL / order %s used; the "
+                     "key is tied by C11's replay of colliding callers on the real code only" % (f, PIN_ORDER))
+        key_sep, key_order = PIN_SEP, PIN_ORDER
+    else:
+        key_sep, key_order = shape
     I("summary_key_sep", key_sep, f)
     S("summary_key_fields", key_order, f)
 
